@@ -399,6 +399,7 @@ class PteraTransformer(NodeTransformer):
         ann_arg = ann if ann else ast.Constant(value=None)
         value_arg = self._get("ABSENT") if value is None else value
         pre = []
+        subscripted = None
         if (
             isinstance(target, ast.Subscript)
             and isinstance(target.value, ast.Name)
@@ -406,26 +407,27 @@ class PteraTransformer(NodeTransformer):
             and not expression
             and self.should_instrument(target.value.id, ann)
         ):
-            # Evaluate the value, then the index, exactly once each (the
-            # index is needed both for the Key and for the actual store)
-            vsym, ksym = _gensym(), _gensym()
+            # Evaluate the value, then the container, then the index, exactly
+            # once each and in Python's order (the index is needed both for
+            # the Key and for the actual store)
+            vsym, osym, ksym = _gensym(), _gensym(), _gensym()
             pre = [
                 ast.Assign(
-                    targets=[ast.Name(id=vsym, ctx=ast.Store())],
-                    value=value_arg,
+                    targets=[ast.Name(id=sym, ctx=ast.Store())],
+                    value=val,
                     lineno=orig.lineno,
                     col_offset=orig.col_offset,
-                ),
-                ast.Assign(
-                    targets=[ast.Name(id=ksym, ctx=ast.Store())],
-                    value=target.slice,
-                    lineno=orig.lineno,
-                    col_offset=orig.col_offset,
-                ),
+                )
+                for sym, val in [
+                    (vsym, value_arg),
+                    (osym, ast.Name(id=target.value.id, ctx=ast.Load())),
+                    (ksym, target.slice),
+                ]
             ]
             value_arg = ast.Name(id=vsym, ctx=ast.Load())
+            subscripted = target.value.id
             target = ast.Subscript(
-                value=target.value,
+                value=ast.Name(id=osym, ctx=ast.Load()),
                 slice=ast.Name(id=ksym, ctx=ast.Load()),
                 ctx=ast.Store(),
             )
@@ -443,7 +445,7 @@ class PteraTransformer(NodeTransformer):
             slc = target.slice
             slc = slc.value if isinstance(target.slice, ast.Index) else slc
             value_args = [
-                target.value.id,
+                subscripted or target.value.id,
                 self._wrap_call("__ptera_Key", "index", deepcopy(slc)),
                 ann_arg,
                 value_arg,
